@@ -11,7 +11,7 @@ LEVEL = 'exploration'
 LEVEL_TEXT = ('seeded exploration of specifications x record lengths (every even 32..256 reached by index, larger sampled) '
               'x output-chunk schedules x prior content; strict framing parse after every flush and of the final file')
 LEVEL_NOTE = 'trusted: sim/rp66.py framing layer; sampling, not exhaustive over body lengths; record lengths 20..30 are outside (C15)'
-TIERS = {'quick': {'cases': 4000, 'wall': 40}, 'thorough': {'cases': 400000, 'wall': 780}}
+TIERS = {'quick': {'cases': 3000, 'wall': 40}, 'thorough': {'cases': 400000, 'wall': 780}}
 RULE = ('case = seeded valid specification whose no-format payloads put record body lengths at k*(max-8)+d, d in -13..13, '
         'written under 2 output-chunk schedules; non-trivial = at least one record was split into >= 2 segments and a '
         'mid-stream flush happened; distinct = digest of (specification, schedules)')
@@ -50,7 +50,10 @@ def gen_case(rng, tier, avoid):
     spec.no_format(lfi, nm, pls)
     ocs = [gen.pick(rng, C.sym_ocs_choices(rng)[:9]) for _ in range(2)]
     prior = [None, {'n': rng.randint(1, 3000), 'seed': rng.randrange(1 << 16)} if rng.random() < 0.3 else None]
-    return {'scenario': {'env': {'tz': 'UTC'}, 'history': spec.ops}, 'params': {'ocs': ocs, 'prior': prior}}
+    ops = spec.ops
+    if rng.random() < 0.2:
+        ops = gen.noise_file(rng) + ops          # process history: another file (other record length) written first
+    return {'scenario': {'env': {'tz': 'UTC'}, 'history': ops}, 'params': {'ocs': ocs, 'prior': prior}}
 
 
 def check_case(case, ex):
